@@ -20,13 +20,19 @@ NEVER = 998
 FAR = 500
 
 
-def build_case(scen, reactor, log):
+def build_case(scen, reactor, log, flushlog=None):
+    flushlog = [] if flushlog is None else flushlog
     import testtools
     from twisted.internet import defer
     from twisted.python import failure
     from twisted.python import log as tlog
 
-    from testtools.twistedsupport import AsynchronousDeferredRunTest, AsynchronousDeferredRunTestForBrokenTwisted
+    from testtools.matchers import Equals
+    from testtools.twistedsupport import (
+        AsynchronousDeferredRunTest,
+        AsynchronousDeferredRunTestForBrokenTwisted,
+        flush_logged_errors,
+    )
 
     beh, side, ncl = scen["beh"], scen["side"], scen["ncl"]
     runner = AsynchronousDeferredRunTestForBrokenTwisted if scen["variant"] == "broken" else AsynchronousDeferredRunTest
@@ -50,6 +56,14 @@ def build_case(scen, reactor, log):
                 tlog.err(failure.Failure(RuntimeError("logged in %s" % unit)))
             elif side["what"] == "drop":
                 defer.fail(RuntimeError("dropped in %s" % unit))  # never given an errback
+            elif side["what"] == "expect":
+                case.expectThat(1, Equals(2))  # does not raise: the test must fail once it has finished
+            elif side["what"] in ("logflush", "flushall"):
+                tlog.err(failure.Failure(RuntimeError("logged in %s" % unit)))
+                tlog.err(failure.Failure(LookupError("also logged in %s" % unit)))
+                # the user declares which logged errors were expected: only those go away
+                flushed = flush_logged_errors(LookupError) if side["what"] == "logflush" else flush_logged_errors()
+                flushlog.append(sorted(type(f.value).__name__ for f in flushed))
         b = beh[unit]
         if b["b"] == "ret":
             return None
@@ -98,7 +112,8 @@ def observe(scen):
 
     reactor = VReactor()
     log = []
-    case, keep = build_case(scen, reactor, log)
+    flushlog = []
+    case, keep = build_case(scen, reactor, log, flushlog)
     res = doubles.ExtendedTestResult()
     _, obs_before = _get_global_publisher_and_observers()
     if scen["intr"] != NOINTR:
@@ -144,6 +159,8 @@ def observe(scen):
         "running": bool(reactor.running),
         "observers_same": [id(o) for o in obs_before] == [id(o) for o in obs_after],
         "propagated": raised,
+        "flushed": flushlog,
+        "side_what": scen["side"]["what"],
     }
 
 
@@ -169,6 +186,9 @@ def compare(exp, obs):
         bad.append("reactor-clean")
     if not obs["observers_same"]:
         bad.append("observers-restored")
+    want = {"logflush": [["LookupError"]], "flushall": [["LookupError", "RuntimeError"]]}
+    if obs.get("flushed") and obs["flushed"] != want.get(obs.get("side_what"), obs["flushed"]):
+        bad.append("flush-returns-declared")
     return bad
 
 
@@ -207,7 +227,7 @@ def run(tier, pid="C14"):
     rep.assume("automatic garbage collection is off while scenarios run and a collection is forced between scenarios: a failed Deferred left by one test and collected during the next would (legitimately) fail that next test")
     rep.assume("which non-success outcome is reported is not fixed by C14 except timeout/interrupt => error")
     rep.assume("a stop request still pending when the test finishes is itself a left-over delayed call (=> error)")
-    cfgs = ["ar_quick.cfg"] if tier == "quick" else ["ar_quick.cfg", "ar_exp_t.cfg"]
+    cfgs = ["ar_quick.cfg", "ar_user.cfg"] if tier == "quick" else ["ar_quick.cfg", "ar_user.cfg", "ar_exp_t.cfg"]
     if tier == "thorough":
         r = tlc.run_tlc("twisted", "MCAsyncRunTest", "ar_thorough.cfg", coverage=True, timeout=3000, workers=8)
         tlc.require_ok(r, "C14 ar_thorough.cfg")
